@@ -346,3 +346,27 @@ def completed_on_all_paths(A, fn, sc, target, call):
         if not done:
             return False, lf
     return True, None
+
+
+def return_values(A, fn, sc, PV=None, stop=()):
+    """Set of normalised, fully substituted return expressions of fn over all normal paths (decision walk);
+    falls back to flow-based provenance (PV) when the function has loops."""
+    g = A.cfg(fn, sc)
+    try:
+        out = set()
+        for lf in Walker(A, fn, sc, lambda e: None).walk(g.entry):
+            if lf.kind == "return":
+                out.add("None" if lf.value is None else norm(lf.deep(lf.node.ast.value)) if lf.node.ast.value is not None else "None")
+        return out
+    except AnalysisError:
+        if PV is None:
+            raise
+        out = set()
+        for n in A.own_nodes(fn):
+            if isinstance(n, ast.Return):
+                for rn in g.nodes_of(n):
+                    if n.value is None:
+                        out.add("None")
+                    else:
+                        out |= {simplify_text(x) for x in PV.expand_consistent(fn, sc, n.value, rn, stop=stop)}
+        return out
